@@ -1,7 +1,10 @@
 #!/bin/bash
 # (re)generate coq/Makefile from the files present and build the given targets (default: all .vo)
 set -o pipefail
-cd "$(dirname "$0")/coq"
+cd "$(dirname "$0")"
+# the generated tables always reflect /repo's current working tree
+PYTHONHASHSEED=0 PYTHONPATH=/repo/src /venv/bin/python harness/gen_tables.py | grep -v unchanged
+cd coq
 {
   echo "-Q Base V"; echo "-Q Rtf V"; echo "-Q Gen V"; echo "-Q Model V"; echo "-Q Proofs V"; echo "-Q Properties V"; echo "-Q Top V"
   ls Base/*.v Rtf/*.v Gen/*.v Model/*.v Proofs/*.v Properties/*.v Top/*.v 2>/dev/null
